@@ -25,6 +25,17 @@ import (
 // ErrInjected is the storage error injected by the harness.
 var ErrInjected = errors.New("vstore: injected storage failure")
 
+// errInjectedTimeout is what a storage with a deadline of its own reports: the injected failure, which
+// also "is" context.DeadlineExceeded although the context of the query is alive.
+type errInjectedTimeout struct{}
+
+func (errInjectedTimeout) Error() string {
+	return "vstore: injected storage failure: fetching chunks: context deadline exceeded"
+}
+func (errInjectedTimeout) Is(target error) bool {
+	return target == ErrInjected || target == context.DeadlineExceeded
+}
+
 // InjectedPanic is a runtime.Error, like the one the repository's own test injects.
 type InjectedPanic struct{ Msg string }
 
@@ -40,7 +51,7 @@ type Series struct {
 // Inject describes one fault: act at the K-th storage callback (1-based).
 type Inject struct {
 	K      int64
-	Kind   string // "err" | "errdown" (every callback from the K-th on fails: the storage went down) | "panic" | "cancel" | "block"
+	Kind   string // "err" | "errwrap" (like err, the error also is context.DeadlineExceeded) | "errdown" (every callback from the K-th on fails: the storage went down) | "panic" | "cancel" | "block"
 	Cancel context.CancelFunc
 	Fired  int32
 	At     string // kind of the callback at which it fired
@@ -141,7 +152,7 @@ func (s *Store) tick(ctx context.Context, kind string, canErr bool) bool {
 		}
 		return false
 	}
-	if inj.Kind == "err" && !canErr {
+	if (inj.Kind == "err" || inj.Kind == "errwrap") && !canErr {
 		return false // this callback cannot report a failure: nothing is injected
 	}
 	atomic.StoreInt32(&inj.Fired, 1)
@@ -161,7 +172,7 @@ func (s *Store) tick(ctx context.Context, kind string, canErr bool) bool {
 			case <-time.After(20 * time.Second):
 			}
 		}
-	case "err":
+	case "err", "errwrap":
 		return canErr
 	}
 	return false
@@ -169,6 +180,9 @@ func (s *Store) tick(ctx context.Context, kind string, canErr bool) bool {
 
 // failure is the error a failing callback reports: the injected one, or the context's.
 func (s *Store) failure(ctx context.Context) error {
+	if inj := s.Inj; inj != nil && inj.Kind == "errwrap" && atomic.LoadInt32(&inj.Fired) == 1 {
+		return errInjectedTimeout{}
+	}
 	if inj := s.Inj; inj != nil && (inj.Kind == "err" || inj.Kind == "errdown") && atomic.LoadInt32(&inj.Fired) == 1 {
 		return ErrInjected
 	}
